@@ -789,6 +789,19 @@ class PureInterp:
             return o.maps
         if ("getattr:" + n.attr) in self.hooks:
             return self.hooks["getattr:" + n.attr](o)
+        if isinstance(o, EnumVal):
+            if n.attr == "name":
+                return o.member
+            if n.attr == "value":
+                cls = self.index.lookup(o.cls)
+                if isinstance(cls, ClassInfo):
+                    for fname, _ann, value in cls.fields:
+                        if fname == o.member and value is not None:
+                            try:
+                                return self.ev.eval(value, cls.module)
+                            except CantEval:
+                                return self.eval(value, {}, cls.module)
+                raise Raised("AttributeError", "value")
         if isinstance(o, tuple) and hasattr(o, "_fields") and n.attr in o._fields:
             return getattr(o, n.attr)
         if isinstance(o, tuple) and hasattr(o, "_fields") and n.attr in ("_replace", "_asdict", "_fields"):
@@ -894,6 +907,11 @@ class PureInterp:
             st = self.eval(n.slice.step, env, module, depth) if n.slice.step else None
             return v[lo:hi:st]
         k = self.eval(n.slice, env, module, depth)
+        if isinstance(v, ClassInfo):
+            from .consteval import enum_members
+            if k in enum_members(self.index, v):
+                return EnumVal(f"{v.module.name}.{v.qual}", k)
+            raise Raised("KeyError", repr(k))
         dm = self._dunder(v, "__getitem__")
         if dm is not None:
             return self.call(dm, (k,), {}, self_obj=v, depth=depth + 1)
